@@ -28,22 +28,64 @@ package doccomposer
 //@   modifies mapcontent(doc)
 //@   ensures [atomic] (err != nil ==> ret == nil) && (err == nil ==> ret != nil)
 //@   ensures [result] err == nil ==> ret == doc || fresh(ret)
+// C10: the six list actions edit the document they are given, replace and ietf-json-patch return a new one
+//@   let act, aerr := p.GetAction()
+//@   ensures [in-place] err == nil && (act == patch.AddPublicKeys || act == patch.RemovePublicKeys || act == patch.AddServiceEndpoints ||
+//@        act == patch.RemoveServiceEndpoints || act == patch.AddAlsoKnownAs || act == patch.RemoveAlsoKnownAs) ==> ret == doc
+//@   ensures [new-doc] err == nil && (act == patch.Replace || act == patch.JSONPatch) ==> fresh(ret)
+//@   ensures [known-action] err == nil ==> aerr == nil && (act == patch.Replace || act == patch.JSONPatch || act == patch.AddPublicKeys || act == patch.RemovePublicKeys ||
+//@        act == patch.AddServiceEndpoints || act == patch.RemoveServiceEndpoints || act == patch.AddAlsoKnownAs || act == patch.RemoveAlsoKnownAs)
 
 //@ func applyJSON(doc, entry) (ret, err)
 //@   modifies nothing
 //@   ensures [atomic] (err != nil ==> ret == nil) && (err == nil ==> ret != nil)
 //@   ensures [fresh] err == nil ==> fresh(ret)
 
+// C10 replace: the result is a new document with the key list and the service list and nothing else
+// (whatever the previous document held is gone: the previous document is not even an argument)
 //@ func applyRecover(replaceDoc) (ret, err)
 //@   modifies nothing
 //@   ensures [atomic] (err != nil ==> ret == nil) && (err == nil ==> ret != nil)
 //@   ensures [fresh] err == nil ==> fresh(ret)
+//@   ensures [only] err == nil ==> (forall k string :: has(ret, k) <==> (k == "publicKey" || k == "service"))
 
+// C10 add-public-keys: insert or replace by id, keeping the existing order and appending new entries.
+// K: the keys before, A: the keys of the patch, M: the set of ids of K, N: the list stored afterwards.
+// N keeps the length and the ids of K position by position; a position holds the old key or a patch
+// key with the same id, and it holds a patch key whenever the patch has one with that id; behind the
+// first len(K) positions come exactly the patch keys whose id is not in M.
 //@ func applyAddPublicKeys(doc, entry) (ret, err)
 //@   requires doc != nil
 //@   modifies mapcontent(doc)
+//@   hide document.ParsePublicKeys[nonlist, all]
+//@   hide sliceToMapPK[members, contains]
+//@   let K := document.ParsePublicKeys(doc["publicKey"])
+//@   let A := document.ParsePublicKeys(entry)
+//@   let M := sliceToMapPK(K)
 //@   ensures [result] err == nil && ret == doc
+//@   ensures [list] typeis(doc["publicKey"], []interface{}) && len(doc["publicKey"].([]interface{})) >= len(K)
+//@   ensures [ids] uses [len, ids] forall i int :: 0 <= i && i < len(K) ==> typeis(doc["publicKey"].([]interface{})[i], map[string]interface{}) &&
+//@        document.strEntry(doc["publicKey"].([]interface{})[i].(map[string]interface{}), "id") == document.strEntry(K[i], "id")
+//@   ensures [origin] uses [len, origin] forall i int :: 0 <= i && i < len(K) ==> doc["publicKey"].([]interface{})[i] == any(map[string]interface{}(K[i])) ||
+//@        (exists a int :: 0 <= a && a < len(A) && doc["publicKey"].([]interface{})[i] == any(map[string]interface{}(A[a])) && document.strEntry(A[a], "id") == document.strEntry(K[i], "id"))
+//@   ensures [replaced] uses [len, replaced] forall i int, a int :: 0 <= i && i < len(K) && 0 <= a && a < len(A) && document.strEntry(A[a], "id") == document.strEntry(K[i], "id") ==>
+//@        (exists b int :: 0 <= b && b < len(A) && doc["publicKey"].([]interface{})[i] == any(map[string]interface{}(A[b])) && document.strEntry(A[b], "id") == document.strEntry(K[i], "id"))
+//@   ensures [appended] uses [len, appended] forall a int :: 0 <= a && a < len(A) && !has(M, document.strEntry(A[a], "id")) ==>
+//@        (exists n int :: len(K) <= n && n < len(doc["publicKey"].([]interface{})) && doc["publicKey"].([]interface{})[n] == any(map[string]interface{}(A[a])))
+//@   ensures [tail] uses [len, tail] forall n int :: len(K) <= n && n < len(doc["publicKey"].([]interface{})) ==>
+//@        (exists a int :: 0 <= a && a < len(A) && !has(M, document.strEntry(A[a], "id")) && doc["publicKey"].([]interface{})[n] == any(map[string]interface{}(A[a])))
 //@   loop 0 invariant [own] newPublicKeys == nil || fresh(newPublicKeys)
+//@   loop 0 invariant [apart] uses [own, len] newPublicKeys == nil || (!sameArray(newPublicKeys, K) && !sameArray(newPublicKeys, A))
+//@   loop 0 invariant [len] uses [] $k <= len(A) && existingPublicKeysMap == M && len(newPublicKeys) >= len(K)
+//@   loop 0 invariant [ids] uses [apart, len] forall i int :: 0 <= i && i < len(K) ==> document.strEntry(newPublicKeys[i], "id") == document.strEntry(K[i], "id")
+//@   loop 0 invariant [origin] uses [apart, len, ids] forall i int :: 0 <= i && i < len(K) ==> newPublicKeys[i] == K[i] ||
+//@        (exists a int :: 0 <= a && a < $k && newPublicKeys[i] == A[a] && document.strEntry(A[a], "id") == document.strEntry(K[i], "id"))
+//@   loop 0 invariant [replaced] uses [apart, len, ids] forall i int, a int :: 0 <= i && i < len(K) && 0 <= a && a < $k && document.strEntry(A[a], "id") == document.strEntry(K[i], "id") ==>
+//@        (exists b int :: 0 <= b && b < $k && newPublicKeys[i] == A[b] && document.strEntry(A[b], "id") == document.strEntry(K[i], "id"))
+//@   loop 0 invariant [appended] uses [apart, len, tail] forall a int :: 0 <= a && a < $k && !has(M, document.strEntry(A[a], "id")) ==>
+//@        (exists n int :: len(K) <= n && n < len(newPublicKeys) && newPublicKeys[n] == A[a])
+//@   loop 0 invariant [tail] uses [apart, len] forall n int :: len(K) <= n && n < len(newPublicKeys) ==>
+//@        (exists a int :: 0 <= a && a < $k && !has(M, document.strEntry(A[a], "id")) && newPublicKeys[n] == A[a])
 
 // C10 remove-public-keys: delete by id, ignore unknown ids. K: the keys of the document before, S: the
 // set of ids to remove, N: the list stored afterwards. Every entry of N is a key of K, no entry of N
@@ -70,11 +112,43 @@ package doccomposer
 //@   loop 0 invariant [keeps] forall j int :: 0 <= j && j < $k && !has(S, document.strEntry(K[j], "id")) ==>
 //@        (exists a int :: 0 <= a && a < len(newPublicKeys) && newPublicKeys[a] == any(map[string]interface{}(K[j])))
 
+// C10 add-services: as add-public-keys, on the service list.
+// K: the services before, A: the services of the patch, M: the set of ids of K, N: the list stored afterwards.
+// N keeps the length and the ids of K position by position; a position holds the old key or a patch
+// key with the same id, and it holds a patch key whenever the patch has one with that id; behind the
+// first len(K) positions come exactly the patch keys whose id is not in M.
 //@ func applyAddServiceEndpoints(doc, entry) (ret, err)
 //@   requires doc != nil
 //@   modifies mapcontent(doc)
+//@   hide document.ParseServices[nonlist, all]
+//@   hide sliceToMapServices[members, contains]
+//@   let K := document.ParseServices(doc["service"])
+//@   let A := document.ParseServices(entry)
+//@   let M := sliceToMapServices(K)
 //@   ensures [result] err == nil && ret == doc
+//@   ensures [list] typeis(doc["service"], []interface{}) && len(doc["service"].([]interface{})) >= len(K)
+//@   ensures [ids] uses [len, ids] forall i int :: 0 <= i && i < len(K) ==> typeis(doc["service"].([]interface{})[i], map[string]interface{}) &&
+//@        document.strEntry(doc["service"].([]interface{})[i].(map[string]interface{}), "id") == document.strEntry(K[i], "id")
+//@   ensures [origin] uses [len, origin] forall i int :: 0 <= i && i < len(K) ==> doc["service"].([]interface{})[i] == any(map[string]interface{}(K[i])) ||
+//@        (exists a int :: 0 <= a && a < len(A) && doc["service"].([]interface{})[i] == any(map[string]interface{}(A[a])) && document.strEntry(A[a], "id") == document.strEntry(K[i], "id"))
+//@   ensures [replaced] uses [len, replaced] forall i int, a int :: 0 <= i && i < len(K) && 0 <= a && a < len(A) && document.strEntry(A[a], "id") == document.strEntry(K[i], "id") ==>
+//@        (exists b int :: 0 <= b && b < len(A) && doc["service"].([]interface{})[i] == any(map[string]interface{}(A[b])) && document.strEntry(A[b], "id") == document.strEntry(K[i], "id"))
+//@   ensures [appended] uses [len, appended] forall a int :: 0 <= a && a < len(A) && !has(M, document.strEntry(A[a], "id")) ==>
+//@        (exists n int :: len(K) <= n && n < len(doc["service"].([]interface{})) && doc["service"].([]interface{})[n] == any(map[string]interface{}(A[a])))
+//@   ensures [tail] uses [len, tail] forall n int :: len(K) <= n && n < len(doc["service"].([]interface{})) ==>
+//@        (exists a int :: 0 <= a && a < len(A) && !has(M, document.strEntry(A[a], "id")) && doc["service"].([]interface{})[n] == any(map[string]interface{}(A[a])))
 //@   loop 0 invariant [own] newServices == nil || fresh(newServices)
+//@   loop 0 invariant [apart] uses [own, len] newServices == nil || (!sameArray(newServices, K) && !sameArray(newServices, A))
+//@   loop 0 invariant [len] uses [] $k <= len(A) && existingServicesMap == M && len(newServices) >= len(K)
+//@   loop 0 invariant [ids] uses [apart, len] forall i int :: 0 <= i && i < len(K) ==> document.strEntry(newServices[i], "id") == document.strEntry(K[i], "id")
+//@   loop 0 invariant [origin] uses [apart, len, ids] forall i int :: 0 <= i && i < len(K) ==> newServices[i] == K[i] ||
+//@        (exists a int :: 0 <= a && a < $k && newServices[i] == A[a] && document.strEntry(A[a], "id") == document.strEntry(K[i], "id"))
+//@   loop 0 invariant [replaced] uses [apart, len, ids] forall i int, a int :: 0 <= i && i < len(K) && 0 <= a && a < $k && document.strEntry(A[a], "id") == document.strEntry(K[i], "id") ==>
+//@        (exists b int :: 0 <= b && b < $k && newServices[i] == A[b] && document.strEntry(A[b], "id") == document.strEntry(K[i], "id"))
+//@   loop 0 invariant [appended] uses [apart, len, tail] forall a int :: 0 <= a && a < $k && !has(M, document.strEntry(A[a], "id")) ==>
+//@        (exists n int :: len(K) <= n && n < len(newServices) && newServices[n] == A[a])
+//@   loop 0 invariant [tail] uses [apart, len] forall n int :: len(K) <= n && n < len(newServices) ==>
+//@        (exists a int :: 0 <= a && a < $k && !has(M, document.strEntry(A[a], "id")) && newServices[n] == A[a])
 
 // C10 remove-services: as remove-public-keys, on the service list
 //@ func applyRemoveServiceEndpoints(doc, entry) (ret, err)
@@ -99,11 +173,32 @@ package doccomposer
 //@   loop 0 invariant [keeps] forall j int :: 0 <= j && j < $k && !has(S, document.strEntry(K[j], "id")) ==>
 //@        (exists a int :: 0 <= a && a < len(newServices) && newServices[a] == any(map[string]interface{}(K[j])))
 
+// C10 add-also-known-as: ordered set union. E: the URIs before, U: the URIs of the patch, S: the set of
+// E, N: the list stored afterwards. N starts with E unchanged; behind it come URIs of U that are not
+// in E, and every URI of U that is not in E is among them.
 //@ func applyAddAlsoKnownAs(doc, entry) (ret, err)
 //@   requires doc != nil
 //@   modifies mapcontent(doc)
+//@   hide document.StringArray[nonlist, bound, strings, all]
+//@   hide sliceToMap[members, contains]
+//@   let E := document.StringArray(doc["alsoKnownAs"])
+//@   let U := document.StringArray(entry)
+//@   let S := sliceToMap(E)
 //@   ensures [result] err == nil && ret == doc
+//@   ensures [list] typeis(doc["alsoKnownAs"], []interface{})
+//@   ensures [prefix] len(doc["alsoKnownAs"].([]interface{})) >= len(E) && (forall i int :: 0 <= i && i < len(E) ==> doc["alsoKnownAs"].([]interface{})[i] == any(E[i]))
+//@   ensures [added] forall a int :: len(E) <= a && a < len(doc["alsoKnownAs"].([]interface{})) ==>
+//@        (exists u int :: 0 <= u && u < len(U) && !has(S, U[u]) && doc["alsoKnownAs"].([]interface{})[a] == any(U[u]))
+//@   ensures [all-new] forall u int :: 0 <= u && u < len(U) && !has(S, U[u]) ==>
+//@        (exists a int :: len(E) <= a && a < len(doc["alsoKnownAs"].([]interface{})) && doc["alsoKnownAs"].([]interface{})[a] == any(U[u]))
 //@   loop 0 invariant [own] newURIs == nil || fresh(newURIs)
+// (the list under construction shares no memory with the lists it is built from)
+//@   loop 0 invariant [apart] newURIs == nil || (!sameArray(newURIs, U) && !sameArray(newURIs, E))
+//@   loop 0 invariant [prefix] $k <= len(U) && existingURIs == S && len(newURIs) >= len(E) && (forall i int :: 0 <= i && i < len(E) ==> newURIs[i] == E[i])
+//@   loop 0 invariant [added] forall a int :: len(E) <= a && a < len(newURIs) ==>
+//@        (exists u int :: 0 <= u && u < $k && !has(S, U[u]) && newURIs[a] == U[u])
+//@   loop 0 invariant [all-new] forall u int :: 0 <= u && u < $k && !has(S, U[u]) ==>
+//@        (exists a int :: len(E) <= a && a < len(newURIs) && newURIs[a] == U[u])
 
 // C10 remove-also-known-as: ordered set difference. K: the URIs before, S: the set to remove
 //@ func applyRemoveAlsoKnownAs(doc, entry) (ret, err)
@@ -178,8 +273,9 @@ package doccomposer
 //@   loop 0 invariant [own] values != nil && fresh(values)
 //@   loop 0 invariant [members] $k <= len(ids) && (forall x string :: has(values, x) <==> (exists i int :: 0 <= i && i < $k && ids[i] == x))
 
-// the set of the ids of the listed keys
+// the set of the ids of the listed keys (a function of the list)
 //@ func sliceToMapPK(publicKeys) (values)
+//@   pure
 //@   modifies nothing
 //@   ensures [own] values != nil && fresh(values)
 //@   ensures [members] forall x string :: has(values, x) <==> (exists i int :: 0 <= i && i < len(publicKeys) && document.strEntry(publicKeys[i], "id") == x)
@@ -188,6 +284,7 @@ package doccomposer
 //@   loop 0 invariant [members] $k <= len(publicKeys) && (forall x string :: has(values, x) <==> (exists i int :: 0 <= i && i < $k && document.strEntry(publicKeys[i], "id") == x))
 
 //@ func sliceToMapServices(services) (values)
+//@   pure
 //@   modifies nothing
 //@   ensures [own] values != nil && fresh(values)
 //@   ensures [members] forall x string :: has(values, x) <==> (exists i int :: 0 <= i && i < len(services) && document.strEntry(services[i], "id") == x)
